@@ -135,7 +135,7 @@ REGISTRY = {
         undecided_clauses=["compression settings do not enter the logic under contract (they are passed through to numpy_pickle.dump, C03)"],
     ),
     "C06": dict(
-        packs=["mem", "c07"], level="proof",
+        packs=["mem", "c07", "c08"], level="proof",
         replay=dict(script="replay/mem.py", args=["C06"], timeout=600),
         bounded=[dict(name="memory-scenarios", script="replay/mem.py", args=["C06"],
                       bound="call-form equivalence / redefinition / crash-state scenarios on a real cache directory (every truncation length of func_code.py, "
